@@ -1,9 +1,14 @@
 import Driver.Common
 import CoapVerif.Model.Router
 import CoapVerif.Spec.Router
+import CoapVerif.Spec.RouterPrefer
+import CoapVerif.Model.RouterAccess
+import CoapVerif.Spec.RouterAccess
+import CoapVerif.Model.RouterNested
+import CoapVerif.Spec.RouterNested
 /-!
 Driver for C17.  `drv_c17 model` replays operation lines on Model/Router (for `serve`/`match` it prints every
-outcome some map-iteration order can produce, joined by ` || `); `drv_c17 judge` evaluates Spec/Router's judge on
+outcome some map-iteration order can produce, joined by ` || `); `drv_c17 judge` evaluates Spec/Router's judge (with Spec/RouterPrefer's choice of the decomposition) on
 `operation | what the implementation answered`.  Strings travel as lower-case hex of their UTF-8 bytes (`-` = empty).
 -/
 namespace Driver.C17
@@ -144,6 +149,48 @@ def modelStep (r : Router) (line : String) : Router × String :=
       (r, joinWith " || " (dedup ((orders r.z).map (fun o => fmtMatch (matchRoute o p {})))) ++ s!" ## {k}")
   | _ => (r, "bad-op")
 
+/-! ## accessors and the error handler (Model/RouterAccess) -/
+
+def handlerName : Handler → String
+  | .named n => n
+  | .nilFunc => "nilf"
+
+def fmtRouteFields (rt : Route) : String :=
+  let rx := match rt.getRouteRegexp with
+    | .ok t => encodeStr t
+    | .error f => "!" ++ fmtFail f
+  s!"{encodeStr rt.pattern} {handlerName rt.h} {rx}"
+
+def fmtRoutes (z : List (Str × Route)) : String :=
+  if z.isEmpty then "routes 0 -" else
+    let es := z.map (fun e => encodeStr e.1 ++ "/" ++ (fmtRouteFields e.2).replace " " "/")
+    s!"routes {z.length} {joinWith "," (es.foldl (fun acc x => insertSorted x acc) [])}"
+
+def modelStepE (x : RouterE) (line : String) : RouterE × String :=
+  match words line with
+  | ["reset"] => ({}, "ok")
+  | ["seterr", n] => (x.setErrorHandler n, "ok")
+  | ["getroutes"] => (x, fmtRoutes x.r.getRoutes)
+  | ["getroute", p] =>
+    match decodeStr p with
+    | none => (x, "bad-op")
+    | some p =>
+      match x.r.getRoute p with
+      | none => (x, "route nil")
+      | some rt => (x, "route " ++ fmtRouteFields rt)
+  | ["servefail", p] =>
+    let path : Option (Option Str) := if p = "none" then some none else (decodeStr p).map some
+    match path with
+    | none => (x, "bad-op")
+    | some path =>
+      let outs := (orders x.r.z).map (fun o =>
+        let errs := x.errorsCalled o path true
+        fmtOutcome (x.r.serveCOAP o path) ++ " errs=" ++ (if errs.isEmpty then "-" else joinWith "," errs))
+      (x, joinWith " || " (dedup outs))
+  | _ =>
+    let (r', out) := modelStep x.r line
+    ({ x with r := r' }, out)
+
 /-! ## judge -/
 open CoapVerif.Spec.Router in
 def parseVars (s : String) : Option (List (Str × Str)) :=
@@ -171,13 +218,25 @@ open CoapVerif.Spec.Router in
 def specH (f : Bool) (h : String) : Option H :=
   if h = "nil" then (if f then some .nilFunc else none) else some (.named h)
 
+-- `ok`, or `ok ambiguous <n>` when the path has n ≥ 2 decompositions along the dispatched pattern (coverage count)
+open CoapVerif.Spec.Router in
+def okWithAmbiguity (st : SpecState) (path : Option Str) (seen : Seen) : String :=
+  match seen with
+  | .hit _ (some pat) _ _ =>
+    match st.regs.find? (fun r => r.pattern = pat) with
+    | some r =>
+      let n := (decomps r.segs (rootIfEmpty (path.getD []))).length
+      if n ≥ 2 then s!"ok ambiguous {n}" else "ok"
+    | none => "ok"
+  | _ => "ok"
+
 open CoapVerif.Spec.Router in
 def judgeServeLine (st : SpecState) (p : String) (ow : List String) : String :=
   let path : Option (Option Str) := if p = "none" then some none else (decodeStr p).map some
   match path, parseSeen ow with
   | some path, some seen =>
-    match judgeServe st path seen with
-    | none => "ok"
+    match judgeServeChosen st path seen with
+    | none => okWithAmbiguity st path seen
     | some c => "violates " ++ c
   | _, _ => "bad-obs"
 
@@ -235,7 +294,7 @@ def judgeStep (st : SpecState) (line : String) : SpecState × String :=
     | ["wire", _, code, segs, _] =>
       match code.toNat?, decodeSegs segs, parseSeen ow with
       | some c, some sg, some seen =>
-        match judgeWire st c sg seen with
+        match judgeWireChosen st c sg seen with
         | none => (st, "ok")
         | some cl => (st, "violates " ++ cl)
       | _, _, _ => (st, "bad-obs")
@@ -256,11 +315,11 @@ def judgeStep (st : SpecState) (line : String) : SpecState × String :=
           | some ⟨_, .nilFunc, _⟩ =>
             -- handler identity is irrelevant for Match: judge with a named stand-in
             let st' := { st with regs := st.regs.map (fun r => if r.pattern = pat then { r with h := .named "?" } else r) }
-            match judgeServe st' (some path) (Seen.hit "?" (some pat) vs (expectedChain st.mws "?")) with
+            match judgeServeChosen st' (some path) (Seen.hit "?" (some pat) vs (expectedChain st.mws "?")) with
             | none => (st, "ok")
             | some c => (st, "violates " ++ c)
           | _ =>
-            match judgeServe st (some path) seen with
+            match judgeServeChosen st (some path) seen with
             | none => (st, "ok")
             | some c => (st, "violates " ++ c)
         | _, _ => (st, "bad-obs")
@@ -268,6 +327,186 @@ def judgeStep (st : SpecState) (line : String) : SpecState × String :=
       | _, _ => (st, "bad-obs")
     | _ => (st, "bad-op")
   | _ => (st, "bad-line")
+
+open CoapVerif.Spec.Router in
+def parseSeenRoute (key : Option String) (fields : List String) : Option SeenRoute :=
+  match fields with
+  | [p, h, _] => do
+    let pat ← decodeStr p
+    let k ← match key with
+      | some k => decodeStr k
+      | none => some pat
+    pure ⟨k, pat, h⟩
+  | _ => none
+
+open CoapVerif.Spec.Router in
+def judgeStepE (x : SpecState × String) (line : String) : (SpecState × String) × String :=
+  let (st, errh) := x
+  match line.splitOn " | " with
+  | [op, obs] =>
+    let ow := words obs
+    match words op with
+    | ["reset"] => (({}, "print"), "ok")
+    | ["seterr", n] => ((st, n), "ok")
+    | ["getroutes"] =>
+      match ow with
+      | ["routes", _, es] =>
+        let entries : Option (List SeenRoute) :=
+          if es = "-" then some [] else
+            (es.splitOn ",").mapM (fun e =>
+              match e.splitOn "/" with
+              | k :: rest => parseSeenRoute (some k) rest
+              | _ => none)
+        match entries with
+        | none => (x, "bad-obs")
+        | some l =>
+          match judgeRoutes st l with
+          | none => (x, "ok")
+          | some c => (x, "violates " ++ c)
+      | _ => (x, "bad-obs")
+    | ["getroute", p] =>
+      match decodeStr p, ow with
+      | some p, ["route", "nil"] =>
+        (x, match judgeRoute st p none with | none => "ok" | some c => "violates " ++ c)
+      | some p, "route" :: fields =>
+        match parseSeenRoute none fields with
+        | none => (x, "bad-obs")
+        | some sr => (x, match judgeRoute st p (some sr) with | none => "ok" | some c => "violates " ++ c)
+      | _, _ => (x, "bad-obs")
+    | ["servefail", p] =>
+      let path : Option (Option Str) := if p = "none" then some none else (decodeStr p).map some
+      match ow.reverse with
+      | e :: restRev =>
+        let seenWords := restRev.reverse
+        match path, parseSeen seenWords, e.splitOn "=" with
+        | some path, some seen, ["errs", names] =>
+          let errs := if names = "-" then [] else names.splitOn ","
+          match judgeServeChosen st path seen with
+          | some c => (x, "violates " ++ c)
+          | none =>
+            match judgeErrs st errh true seen errs with
+            | none => (x, "ok")
+            | some c => (x, "violates " ++ c)
+        | _, _, _ => (x, "bad-obs")
+      | [] => (x, "bad-obs")
+    | _ =>
+      let (st', out) := judgeStep st line
+      ((st', errh), out)
+  | _ => (x, "bad-line")
+
+/-! ## one message object dispatched repeatedly, mounted routers (Model/RouterNested, Spec/RouterNested) -/
+
+structure MState where
+  x : RouterE := {}
+  inner : Router := {}
+  msg : MsgObj := {}
+
+def mountVarOf (h : Handler) : Option Str :=
+  match h with
+  | .named n => if n.startsWith mountPrefix then decodeStr (n.drop mountPrefix.length).copy else none
+  | .nilFunc => none
+
+def mountTagOf (h : Handler) : String :=
+  match h with
+  | .named n => (n.drop mountPrefix.length).copy
+  | .nilFunc => ""
+
+def fmtNested (outer : Router) (o : NestedOutcome) (tag : String) : String :=
+  match o with
+  | .plain o => fmtOutcome o
+  | .nested _ (.invoked h pat rp run) =>
+    if run.panics then "panic nilfunc" else
+    let hn := match h with | .named n => n | .nilFunc => "nilf"
+    let p := match pat with | some p => encodeStr p | none => "*"
+    let chain := outer.middlewares.map (fun m => "+" ++ m) ++ [">" ++ tag] ++ run.evs.map fmtEv ++ ["<" ++ tag] ++
+      outer.middlewares.reverse.map (fun m => "-" ++ m)
+    s!"hit {hn} {p} {fmtVars (rp.vars.getD [])} {joinWith "," chain} {encodeStr rp.path} {encodeStr rp.pathTemplate}"
+  | .nested _ .nothing => "chain-without-handler"
+  | .nested _ (.fail f) => fmtFail f
+
+def parsePathArg (p : String) : Option (Option Str) := if p = "none" then some none else (decodeStr p).map some
+
+def modelStepM (s : MState) (line : String) : MState × String :=
+  match words line with
+  | ["reset"] => ({}, "ok")
+  | "inner" :: rest =>
+    let (r', out) := modelStep s.inner (joinWith " " rest)
+    ({ s with inner := r' }, out)
+  | ["mount", p, v] =>
+    match decodeStr p with
+    | none => (s, "bad-op")
+    | some p =>
+      match s.x.r.handle p (some (.named (mountPrefix ++ v))) with
+      | .ok r' => ({ s with x := { s.x with r := r' } }, "ok")
+      | .error f => (s, fmtFail f)
+  | ["msgnew", p] =>
+    match parsePathArg p with
+    | none => (s, "bad-op")
+    | some path => ({ s with msg := { path := path, rp := {} } }, "ok")
+  | ["msgpath", p] =>
+    match parsePathArg p with
+    | none => (s, "bad-op")
+    | some path => ({ s with msg := s.msg.setPath path }, "ok")
+  | ["msgserve"] =>
+    let tagOf (oo : List (Str × Route)) : String :=
+      match (s.x.r.serveMsg oo s.msg).1 with
+      | .invoked h _ _ _ => mountTagOf h
+      | _ => ""
+    let outs := (orders s.x.r.z).flatMap (fun oo => (orders s.inner.z).map (fun io =>
+      let res := serveNested s.x.r s.inner mountVarOf oo io s.msg
+      fmtNested s.x.r res.1 (tagOf oo)))
+    let canonical := serveNested s.x.r s.inner mountVarOf s.x.r.z s.inner.z s.msg
+    ({ s with msg := canonical.2 }, joinWith " || " (dedup outs))
+  | _ =>
+    let (x', out) := modelStepE s.x line
+    ({ s with x := x' }, out)
+
+structure JState where
+  st : CoapVerif.Spec.Router.SpecState := {}
+  errh : String := "print"
+  inner : CoapVerif.Spec.Router.SpecState := {}
+  msg : CoapVerif.Spec.Router.MsgSpec := {}
+
+open CoapVerif.Spec.Router in
+def judgeStepM (s : JState) (line : String) : JState × String :=
+  match line.splitOn " | " with
+  | [op, obs] =>
+    let ow := words obs
+    match words op with
+    | ["reset"] => ({}, "ok")
+    | "inner" :: rest =>
+      let (st', out) := judgeStep s.inner (joinWith " " rest ++ " | " ++ obs)
+      ({ s with inner := st' }, out)
+    | ["mount", p, v] =>
+      let (st', out) := judgeStep s.st (s!"route {p} {mountPrefix}{v} | {obs}")
+      ({ s with st := st' }, out)
+    | ["msgnew", p] =>
+      match parsePathArg p with
+      | none => (s, "bad-op")
+      | some path => ({ s with msg := { path := path, carried := [] } }, "ok")
+    | ["msgpath", p] =>
+      match parsePathArg p with
+      | none => (s, "bad-op")
+      | some path => ({ s with msg := { s.msg with path := path } }, "ok")
+    | ["msgserve"] =>
+      match parseSeen ow with
+      | none => (s, "bad-obs")
+      | some seen =>
+        let mount : Option (Str × String) :=
+          match seen with
+          | .hit _ _ _ chain =>
+            match chain.find? (fun c => c.startsWith ">") with
+            | some c => (decodeStr (c.drop 1).copy).map (fun v => (v, (c.drop 1).copy))
+            | none => none
+          | _ => none
+        let (verdict, msg') := judgeMsgServe s.st s.inner s.msg mount seen
+        match verdict with
+        | none => ({ s with msg := msg' }, "ok")
+        | some c => ({ s with msg := msg' }, "violates " ++ c)
+    | _ =>
+      let ((st', errh'), out) := judgeStepE (s.st, s.errh) line
+      ({ s with st := st', errh := errh' }, out)
+  | _ => (s, "bad-line")
 
 end Driver.C17
 
@@ -277,14 +516,14 @@ def main (args : List String) : IO UInt32 := do
   let stdout ← IO.getStdout
   match args with
   | ["model"] =>
-    let _ ← foldLines stdin ({} : CoapVerif.Model.Router.Router) (fun r line => do
-      let (r', out) := modelStep r line
+    let _ ← foldLines stdin ({} : MState) (fun r line => do
+      let (r', out) := modelStepM r line
       stdout.putStrLn out
       pure r')
     return 0
   | ["judge"] =>
-    let _ ← foldLines stdin ({} : CoapVerif.Spec.Router.SpecState) (fun st line => do
-      let (st', out) := judgeStep st line
+    let _ ← foldLines stdin ({} : JState) (fun st line => do
+      let (st', out) := judgeStepM st line
       stdout.putStrLn out
       pure st')
     return 0
